@@ -23,6 +23,7 @@ const maxBatchRequestSize int = 100
 
 var (
 	DimensionMissmatchErr    error = errors.New("Value dimension does not match dataset dimension")
+	NonFiniteValueErr        error = errors.New("Value contains a component that is not a finite number")
 	PartitionNotFoundErr     error = errors.New("Partition not found")
 	PartitionNotOnNodeErr    error = errors.New("Partition is not loaded on the node")
 	BatchRequestTooLargerErr error = errors.New("Batch request too large")
@@ -441,6 +442,12 @@ func (this *Dataset) getPartitionForId(id uuid.UUID) *partition {
 func (this *Dataset) checkDimension(value *math.Vector) error {
 	if uint32(len(*value)) != this.Meta().GetDimension() {
 		return DimensionMissmatchErr
+	}
+	// A NaN or infinite component makes distances NaN, which cannot be ordered
+	for _, x := range *value {
+		if x != x || x-x != 0 {
+			return NonFiniteValueErr
+		}
 	}
 	return nil
 }
